@@ -144,7 +144,7 @@ Bump(v, bits) == IF bits THEN 1 - v ELSE v + 1
 Rewrite(S, r, n, f(_), sel(_)) ==
   [S.rg EXCEPT ![r].mem = [i \in 1..Len(@) |-> IF i <= n /\ sel(i) THEN f(@[i]) ELSE @[i]]]
 
-(* into_vec hands the memory to a Vec: the region loses its reservation      *)
+(* the memory is handed to a Vec (into_vec): the region loses its reservation *)
 Unclaim(S, r) == [S EXCEPT !.rg = [S.rg EXCEPT ![r].claimed = FALSE],
                            !.pool = @ - (IF S.rg[r].claimed THEN S.rg[r].size ELSE 0)]
 
@@ -157,20 +157,20 @@ BufferMutate(S, x) ==
       rg1 == Rewrite(S, r, h.len, LAMBDA v : Bump(v, S.rg[r].bits), LAMBDA i : TRUE)
   IN Resnap([S EXCEPT !.rg = rg1], x)
 
-(* unary_mut / into_builder: every value slot; try_unary_mut: valid slots.    *)
-(* The array goes through a PrimitiveBuilder whose values are a Vec: the      *)
-(* uniquely owned values memory is taken over by (or copied into) that Vec,   *)
-(* so afterwards it is Vec-owned, of capacity `size`, and holds no pool       *)
-(* reservation; the validity buffer stays where it is                         *)
 (* Whether it mutates or declines, into_builder hands back an array built     *)
 (* through ArrayData, which keeps a validity buffer only if it has a null:    *)
 (* an all-valid validity buffer is dropped (same logical validity)            *)
 NormNulls(S, x) ==
   LET h == S.hd[x] IN
-  IF Len(h.refs) = 2 /\ \A i \in 1..h.len : S.rg[h.refs[2]].mem[h.noff + i] = 1
+  IF Len(h.refs) = 2 /\ AllValid(S, h)
   THEN Collect([S EXCEPT !.hd = [S.hd EXCEPT ![x] = MkHandle(S.rg, "array", <<h.refs[1]>>, h.off, 0, h.len)]])
   ELSE S
 
+(* unary_mut / into_builder: every value slot; try_unary_mut: valid slots.    *)
+(* The array goes through a PrimitiveBuilder whose values are a Vec: the      *)
+(* uniquely owned values memory is taken over by (or copied into) that Vec,   *)
+(* so afterwards it is Vec-owned, of capacity `size`, and holds no pool       *)
+(* reservation; the validity buffer stays where it is                         *)
 ArrayMutate(S, x, validOnly, size) ==
   LET h == S.hd[x] r == h.refs[1]
       valid(i) == Len(h.refs) = 1 \/ ~validOnly \/ S.rg[h.refs[2]].mem[h.noff + i] = 1
